@@ -476,6 +476,10 @@ _public_ int m_mod_register(const char *name, m_mod_t **mod_ref, const m_mod_hoo
         if (ret != 0) {
             return ret;
         }
+        /* on_stop() of the replaced module may have deregistered the context */
+        if (m_ctx() != c) {
+            return -EPIPE;
+        }
     }
 
     M_DEBUG("Registering module '%s'.\n", name);
